@@ -5,10 +5,13 @@ through the hooks installed by vf.symex.rewrite.  CPython supplies control
 flow; every truth test on a symbolic value calls Ctx.fork(), which asks z3
 whether each side is feasible under the current path condition.
 """
+import os
 import time
 import z3
 
-WIDTH = 80  # bit-vector width standing in for Python's unbounded int
+# bit-vector width standing in for Python's unbounded int (no-overflow VCs make it faithful);
+# a harness process may lower it when its values are small (VF_WIDTH, set before import)
+WIDTH = int(os.environ.get("VF_WIDTH", "80"))
 
 
 class EngineSignal(BaseException):
@@ -33,7 +36,8 @@ class Ctx:
 
     current = None
 
-    def __init__(self, max_paths=4000, max_decisions=4000, timeout_ms=60000):
+    def __init__(self, max_paths=4000, max_decisions=4000, timeout_ms=60000, budget_s=600):
+        self.budget_s = budget_s
         self.max_paths = max_paths
         self.max_decisions = max_decisions
         self.timeout_ms = timeout_ms
@@ -120,7 +124,11 @@ def explore(fn, ctx=None):
     ctx = ctx or Ctx()
     prefix = []
     results = []
+    t0 = time.time()
     while True:
+        if time.time() - t0 > ctx.budget_s:
+            results.append(("bound", f"time budget of {ctx.budget_s}s for this harness"))
+            break
         ctx._begin(prefix)
         Ctx.current = ctx
         try:
@@ -352,6 +360,12 @@ class SInt:
             q2 = z3.If(adj, q - 1, q)
             r2 = z3.If(adj, rm + b, rm)
             return SInt(z3.simplify(q2)), SInt(z3.simplify(r2))
+        # z3 Int, concrete positive divisor: name quotient and remainder by their defining
+        # axioms (a = b*q + r, 0 <= r < b); much easier for the solver than nested div/mod terms
+        bs = z3.simplify(b)
+        if z3.is_int_value(bs) and bs.as_long() > 0:
+            q, rm = int_divmod_const(a, bs.as_long())
+            return SInt(q), SInt(rm)
         # z3 Int: div is floor for positive divisor, ceil for negative -> normalise
         q = a / b
         rm = a % b
@@ -516,13 +530,13 @@ class SInt:
         raise Unsupported("float() of symbolic int must go through the call hook")
 
     def bit_length(self):
+        """symbolic: number of k in 0..WIDTH-2 with |self| >= 2^k (no forking)"""
         self._need_bv()
-        # fork on the value: at most WIDTH alternatives
-        a = abs(self)
-        for k in range(WIDTH):
-            if cur().fork(z3.ULT(a.e, z3.BitVecVal(1 << k, WIDTH))):
-                return k
-        raise BoundExceeded("bit_length")
+        a = z3.If(self.e < 0, -self.e, self.e)
+        n = z3.BitVecVal(0, WIDTH)
+        for k in range(WIDTH - 1):
+            n = n + z3.If(z3.UGE(a, z3.BitVecVal(1 << k, WIDTH)), z3.BitVecVal(1, WIDTH), z3.BitVecVal(0, WIDTH))
+        return SInt(n)
 
     def to_bytes(self, length=1, byteorder="big", *, signed=False):
         from .models import SBytes
@@ -545,6 +559,31 @@ class SInt:
 
     def __repr__(self):
         return f"SInt({self.e})"
+
+
+def int_divmod_const(a, c):
+    """fresh (q, r) with a == c*q + r and 0 <= r < c, cached per (term, divisor) on the run"""
+    ctx = cur()
+    cache = getattr(ctx, "_divcache", None)
+    if cache is None or getattr(ctx, "_divcache_solver", None) is not ctx.solver:
+        cache = ctx._divcache = {}
+        ctx._divcache_solver = ctx.solver
+    a = z3.simplify(a)
+    key = (a.get_id(), c)
+    if key in cache:
+        return cache[key][1:]
+    if z3.is_int_value(a):
+        v = a.as_long()
+        res = (z3.IntVal(v // c), z3.IntVal(v % c))
+        cache[key] = (a,) + res
+        return res
+    q = z3.Int(ctx.fresh("q"))
+    r = z3.Int(ctx.fresh("r"))
+    ax = z3.And(a == c * q + r, r >= 0, r < c)
+    ctx.solver.add(ax)
+    ctx.pc.append(ax)
+    cache[key] = (a, q, r)
+    return q, r
 
 
 def concretize(x, lo=None, hi=None, cap=300):
